@@ -3114,7 +3114,9 @@ define_enum_type(InterrogateType &itype, CPPEnumType *cpptype) {
   itype._flags |= InterrogateType::F_enum;
 
   CPPScope *scope = cpptype->_parent_scope;
-  if (cpptype->_ident != nullptr) {
+  if (cpptype->_ident != nullptr && !cpptype->is_scoped()) {
+    // The values of an unscoped enum live in the scope the enum is declared
+    // in; those of a scoped enum live in the enum's own scope.
     scope = cpptype->_ident->get_scope(&parser, &parser);
   }
 
